@@ -179,6 +179,66 @@ def r_rmse(ctx: Ctx, model):
                nontrivial_key=("virial",))
 
 
+def r_virial_objective(ctx: Ctx, model):
+    """the Virial model fits a polynomial to ln(p/n): the residual it hands the optimiser must be ln(pressure_x(n_i) / n_i) - ln(p_i / n_i) with
+    pressure_x the model's OWN pressure equation at the trial parameters - otherwise the fitted parameters do not reproduce the data through
+    the model (fit interpreted on a concrete four-point isotherm, array algebra on symbolic elements)"""
+    import numpy as _np
+    import sympy as sp
+    from ..ndsym import install_nd, to_np
+    ctx.rule("F-protocol (Virial): residual_i(x) == ln(Virial.pressure(n_i; x) / n_i) - ln(p_i / n_i), x paired with the parameters by name")
+    ci = model.cls("pygaps.modelling.virial.Virial")
+    vfit, vpress = ci.find_method("fit"), ci.find_method("pressure")
+    I = make_interp(model)
+    install_nd(I)
+    R = sp.Rational
+    P = _np.array([R(1), R(2), R(3), R(4)], dtype=object)
+    L = _np.array([R(1, 10), R(1, 5), R(3, 10), R(1)], dtype=object)
+    names = I.class_const(ci, ci.find_assign("param_names")[1])
+    xs = {nm_: sp.Symbol(f"x_{nm_}", positive=True) for nm_ in names}
+    cap = {}
+
+    def least_squares(I, a, k, n):
+        fun = k.get("fun", a[0] if a else None)
+        x0 = k.get("x0", a[1] if len(a) > 1 else None)
+        cap["nvar"] = len(to_np(I, x0)) if x0 is not None else None
+        args = k.get("args", ())
+        cap["order"] = list(cap["self"].attrs["params"])
+        xv = _np.array([xs[nm_] for nm_ in cap["order"]], dtype=object)
+        cap["resid"] = I.call_value(fun, [xv] + list(args), {}, n)
+        cap["args"] = args
+        return Obj(kind="OptRes", label="res", attrs={"x": _np.array([xs[nm_] for nm_ in cap["order"]], dtype=object), "fun": _np.array([R(0)] * len(L), dtype=object),
+                                                      "success": True, "status": sp.Integer(1), "message": "ok", "nfev": sp.Integer(3), "cost": R(0), "optimality": R(0)})
+    I.ext["scipy.optimize.least_squares"] = least_squares
+    I.ext["numpy.sqrt"] = lambda I, a, k, n: sp.sqrt(a[0])
+
+    def thunk(I):
+        cap.clear()
+        o = Obj(cls=ci, label="model", attrs={"params": {nm_: sp.nan for nm_ in names}, "name": "Virial",
+                                              "param_bounds": {nm_: (sp.Integer(0), sp.oo) for nm_ in names}, "rmse": sp.nan})
+        cap["self"] = o
+        I.call_func(vfit, [P.copy(), L.copy(), {nm_: sp.Integer(1) for nm_ in names}], {}, None, self_obj=o)
+        return dict(cap)
+    outs = I.explore(thunk)
+    oks = [o for o in outs if o.kind == "ok" and "resid" in o.value]
+    if not oks:
+        raise AnalysisError(f"Virial.fit cannot be interpreted on a concrete isotherm: {[repr(o)[:120] for o in outs[:2]]}")
+    c = oks[0].value
+    resid = to_np(I, c["resid"])
+    par = {nm_: xs[nm_] for nm_ in names}
+    want = []
+    for li, pi_ in zip(L, P):
+        po = I.explore(lambda I: I.call_func(vpress, [li], {}, None, self_obj=Obj(cls=ci, label="m", attrs={"params": dict(par)})))
+        if len(po) != 1 or po[0].kind != "ok":
+            raise AnalysisError(f"Virial.pressure cannot be evaluated symbolically: {po[:1]}")
+        want.append(sp.log(po[0].value / li) - sp.log(pi_ / li))
+    ok = isinstance(resid, _np.ndarray) and resid.shape == (len(L),) and all(sp.simplify(sp.expand_log(sp.sympify(a_) - b_, force=True)) == 0 for a_, b_ in zip(resid, want))
+    ctx.ob(ok, Finding("C12.F-protocol", vfit.where, "virial|objective",
+                       f"Virial.fit hands the optimiser the residual {[str(x) for x in (resid.tolist() if isinstance(resid, _np.ndarray) else [resid])][:2]}...; "
+                       f"required ln(pressure_x(n_i)/n_i) - ln(p_i/n_i) = {[str(x) for x in want[:2]]}... with the model's own pressure equation (parameters "
+                       f"paired by name, order {c.get('order')})"), nontrivial_key=("virial", "objective"))
+
+
 def r_data(ctx: Ctx, model):
     """what reaches model.fit: ModelIsotherm.__init__ interpreted on an abstract table / abstract arrays"""
     from ..absint import Frame, Mask, UnknownBool
@@ -472,6 +532,7 @@ def run(ctx: Ctx):
     ctx.assume("scipy.optimize.least_squares returns res.x, res.fun, res.success of one optimisation")
     r_fit(ctx, model)
     r_bounds_init(ctx, model)
+    r_virial_objective(ctx, model)
     r_data(ctx, model)
     r_temperature(ctx, model)
     r_best(ctx, model)
